@@ -12,9 +12,11 @@ CHECKS = {
                 "(fs, sql; gzip, zstd, tink, ec 2+1, cache inmem/fs, outbox) with one layer function per Go type and the "
                 "transaction protocol of database/tx.go, against an ideal store. TLC proves on the design that every read of every "
                 "behaviour of every composition returns what the ideal store allows (exhaustive up to MaxLen calls over 2 ids, "
-                "2 blobs, all 32 semantic stacks). TLC then enumerates every (stack, size class relative to the boundaries present "
+                "2 blobs; quick: the 20 semantic stacks with up to 2 of cache/outbox/ec, 4 calls; thorough: all 32, 6 calls). TLC then enumerates every (stack, size class relative to the boundaries present "
                 "in that stack, content class) and generates call programs (nil / own / caller's transaction, commit, rollback, "
-                "outbox drain or not); the Go driver executes them on the REAL stacks built from config JSON over sqlite and logs "
+                "outbox drain or not): weighted random walks of the model plus, by breadth-first search over the model states, a "
+                "shortest program for every branch of every layer function (cache hit/fill/miss, outbox entry over present/absent "
+                "inner content, pending SQL rows, ...), and programs are assigned so that these branches are covered evenly; the Go driver executes them on the REAL stacks built from config JSON over sqlite and logs "
                 "per call the error kind and which of its own written blobs the returned bytes equal (sha256+length); TLC replays "
                 "every logged call through the same transition function. Byte fidelity of the codecs is conformance-tested per "
                 "enumerated class, not proved, hence level = model checking of the contract + conformance.",
@@ -50,7 +52,7 @@ def run(ctx):
     devs = ctx.deviations("D-C15")
     # 1. the design satisfies the property (Deviations = {})
     ctx.mc("PartStoreStack", "PartStoreStack.MC.cfg", workers=ctx.pick(4, 8), timeout=ctx.pick(300, 1500),
-           subst={"MaxLen": ctx.pick("4", "5")})
+           subst={"MaxLen": ctx.pick("4", "6"), "MCLayers": ctx.pick("3", "4")})
 
     # 2. TLC enumerates the static cases and generates programs
     depth = ctx.pick("2", "3")
@@ -60,35 +62,78 @@ def run(ctx):
         raise vlib.Infra("static case generation failed: %s\n%s" % (g.outcome, g.output[-2000:]))
     static = sorted(g.printed, key=lambda c: json.dumps(c, sort_keys=True))
     plen = ctx.pick(5, 6)
-    nprog = ctx.pick(300, 1500)
+    nprog = ctx.pick(400, 3000)
     p = ctx.tlc("PartStoreStackGen", "PartStoreStack.GenProgs.cfg", workers=1, timeout=900, count_mc=False,
                 simulate="num=%d" % nprog, depth=plen + 2, seed=ctx.seed,
                 subst=dict(WNONE, Depth=depth, MaxLen=str(plen), Deviations=devs))
     progs = [x for x in p.printed if isinstance(x, dict) and "prog" in x]
-    if len(progs) < nprog:
+    if len(progs) < nprog:  # noqa
         raise vlib.Infra("program generation produced %d of %d programs (%s)\n%s" % (len(progs), nprog, p.outcome, p.output[-2000:]))
     ctx.transitions += p.generated
+    # 2b. branch witnesses: BFS over the model states, first (= shortest) program per (semantic stack, model branch)
+    fw = ctx.tlc("PartStoreStackGen", "PartStoreStack.GenFeat.cfg", workers=1, timeout=1200, count_mc=False,
+                 subst=dict(WNONE, Depth=depth, MaxLen=str(ctx.pick(5, 5)), Deviations=devs))
+    if not fw.ok() or not fw.printed:
+        raise vlib.Infra("branch witness generation failed: %s\n%s" % (fw.outcome, fw.output[-2000:]))
+    ctx.transitions += fw.generated
+    branchw = {}
+    for x in fw.printed:
+        if isinstance(x, dict) and "feat" in x:
+            branchw.setdefault((_semkey(x["sem"]), json.dumps(x["feat"])), x)
     pool = collections.defaultdict(list)
-    for x in progs:
+    for x in progs + list(branchw.values()):
         pool[_semkey(x["sem"])].append(x)
-    ctx.log("GEN: %d static cases, %d programs over %d semantic stacks" % (len(static), len(progs), len(pool)))
+    progs = progs + list(branchw.values())
+    ctx.log("GEN: %d static cases, %d random programs + %d branch witnesses over %d semantic stacks" %
+            (len(static), len(progs) - len(branchw), len(branchw), len(pool)))
 
-    # 3. pair every static case with programs of its semantic stack (seeded)
+    # 3. pair every static case with programs of its semantic stack (seeded).  Programs are chosen so that the
+    # branches of the model they exercise (TLC reports them per program as "feats") are covered evenly: the
+    # next program is one that contains the so far least-covered branch of that semantic stack; the first
+    # program of a case must read back blob b1 (the blob that carries the case's size/content class).
     rng = random.Random(ctx.seed)
     per = ctx.pick(2, 2)
+    for x in progs:
+        x["fset"] = set(json.dumps(f) for f in x["feats"])
+    featcov = collections.defaultdict(collections.Counter)
+
+    def choose(semk, cand):
+        cov = featcov[semk]
+        avail = set().union(*(x["fset"] for x in cand))
+        lo = min(cov[f] for f in avail)
+        rare = sorted(f for f in avail if cov[f] == lo)
+        f = rng.choice(rare)
+        x = rng.choice([y for y in cand if f in y["fset"]])
+        for g2 in x["fset"]:
+            cov[g2] += 1
+        return x
+
     cases = []
     for c in static:
-        cand = pool.get(_semkey(c["sem"]))
+        semk = _semkey(c["sem"])
+        cand = pool.get(semk)
         if not cand:
             raise vlib.Infra("no program generated for semantic stack %s" % c["sem"])
         reading = [x for x in cand if x.get("reads1", 0) > 0] or [x for x in cand if x["reads"] > 0] or cand
         k = 1 if c["size"] > 4 * 1024 * 1024 else per
-        chosen = [rng.choice(reading)] + [rng.choice(cand) for _ in range(k - 1)]
+        chosen = [choose(semk, reading)] + [choose(semk, cand) for _ in range(k - 1)]
         for x in chosen:
             k2 = dict(c)
             k2["case"] = len(cases) + 1
             k2["prog"] = x["prog"]
             cases.append(k2)
+    # every branch witness runs at least once (on the smallest random-content case of a stack of its semantic stack)
+    for (semk, f), x in sorted(branchw.items()):
+        if featcov[semk][f] == 0:
+            host = [c for c in static if _semkey(c["sem"]) == semk and c["sc"] == "one" and c["content"] == "random"]
+            k2 = dict(host[0])
+            k2["case"] = len(cases) + 1
+            k2["prog"] = x["prog"]
+            cases.append(k2)
+            for g2 in x["fset"]:
+                featcov[semk][g2] += 1
+    ctx.extra["model_branches_covered"] = {k: len([f for f in v if v[f] > 0]) for k, v in featcov.items()}
+    ctx.extra["model_branches_total"] = len(branchw)
     # 3b. one TLC-found witness program per open deviation
     witnessed = {}
     for tag in ctx.open_tags("C15"):
@@ -249,6 +294,7 @@ def run(ctx):
         "inside a transaction that wrote an id, a read of that id may return the committed or the pending content",
     ]
     return ("TLC enumerates all (stack up to depth %s, size class at the boundaries of that stack, content class) = %d static cases "
-            "and generates %d programs of %d calls by -simulate; each static case runs %d program(s) of its semantic stack on the "
-            "real stack; non-trivial = the case read back non-empty content it had written" %
-            (depth, len(static), len(progs), plen, per))
+            "and generates %d programs (weighted random walks of %d calls by -simulate, plus one shortest BFS witness per model "
+            "branch); each static case runs %d program(s) of its semantic stack on the real stack, chosen so that the model's "
+            "branches are covered evenly, the first one reading back the blob that carries the size class; non-trivial = the case "
+            "read back non-empty content it had written" % (depth, len(static), len(progs), plen, per))
